@@ -326,6 +326,57 @@ fn with_comments(r: &mut Rng, src: &str) -> String {
     out
 }
 
+/// Programs of the *supported* subset (the model generator's `avoid` profile never emits a construct
+/// whose analysis dies at a recorded panic site), printed under a random layout: here every panic is
+/// a violation, whatever its site - the cell carries the prefix `supported-subset/`, which no
+/// recorded finding lists.
+fn supported_subset_case(seed: u64, obs: &mut Obs) {
+    use super::semcommon::{analyse_text, AErr};
+    use crate::gen::modelgen::{GenCfg, MG};
+    use crate::model::{print_program, Layout, Trivia};
+    let mut r = Rng::new(seed);
+    let prog = {
+        let mut g = MG::new(&mut r, GenCfg { max_stmts: 6, ..GenCfg::semantic() });
+        g.program()
+    };
+    let lay = Layout {
+        trivia: *r.pick(&[Trivia::Sparse, Trivia::Dense, Trivia::Dense, Trivia::Lines, Trivia::Tight]),
+        redundant_parens: if r.bool() { 10 } else { 0 },
+        paren_assign_rhs: true,
+        paren_deviating: true,
+        seed: mix(&[seed, 0x5eed]),
+    };
+    let text = print_program(&prog, &lay).text;
+    obs.fp.str(&text);
+    match analyse_text(&text) {
+        Ok(res) => {
+            let depth = res.symbol_table().verif_scope_depth();
+            if depth != 1 {
+                obs.violate("supported-subset/scope-stack-not-restored", format!("{text:?}: {depth} scopes open after analysis"));
+            }
+            let r2 = guard(|| walk_result(res.program(), res.symbol_table()));
+            match r2 {
+                Ok((nst, nids)) => {
+                    obs.count_n("asg-statements-walked", nst as u64);
+                    obs.count_n("symbol-ids-indexed", nids as u64);
+                    obs.note = format!("{nst} statements of the supported subset analysed and walked");
+                    obs.class("supported-subset-analysed");
+                    obs.done(nst >= 1);
+                }
+                Err(p) => {
+                    obs.violate(format!("supported-subset/walk/{}", p.site()), format!("{text:?}: {}:{} {}", p.file, p.line, p.msg));
+                    obs.done(true);
+                }
+            }
+        }
+        Err(AErr::Rejected(m)) => obs.inconclusive(format!("rejected by the parser (C04): {m}")),
+        Err(AErr::Panic(site, msg)) => {
+            obs.violate(format!("supported-subset/{site}"), format!("{text:?}: {msg}"));
+            obs.done(true);
+        }
+    }
+}
+
 impl Property for C03 {
     fn id(&self) -> &'static str {
         "C03"
@@ -345,6 +396,7 @@ impl Property for C03 {
             let p = programs::wide_program(&mut r);
             format!("s:{}", with_comments(&mut r, &p))
         }));
+        v.push(Stream::new("supported-subset-model-programs", tier.pick(30_000, 1_500_000), false, move |i| format!("sup:{}", mix(&[seed, 0xC03, 9, i]))));
         v.push(Stream::new("seed-programs", strings::seed_programs().len() as u64, true, |i| format!("s:{}", strings::seed_programs()[i as usize])));
         for st in common::string_streams(0xC03, tier, seed, tier.pick(1.0, 0.5)) {
             // survivors: sources with syntax diagnostics are skipped inside the monitor
@@ -362,6 +414,10 @@ impl Property for C03 {
     fn check(&self, input: &str, obs: &mut Obs) {
         if let Some(s) = input.strip_prefix("s:") {
             check_source(s, obs, false);
+            return;
+        }
+        if let Some(rest) = input.strip_prefix("sup:") {
+            supported_subset_case(rest.parse().unwrap_or(0), obs);
             return;
         }
         if let Some(s) = input.strip_prefix("ms:") {
